@@ -68,6 +68,7 @@ async def scenario(world: WorldA) -> None:
         await sysm.wait_connected()
         spa = man.facade.spa
         mon_c = NotifyMonitor(world, spa.struct, "client")
+        mon_c.wrap_get()
         mon_s = NotifyMonitor(world, model.structure, "spa")
         nc, ns = mon_c.watch_all(), mon_s.watch_all()
         if nc < 50 or ns < 50:
@@ -131,7 +132,16 @@ async def scenario(world: WorldA) -> None:
                 res.probe("a_b_a")
             elif k == "refresh":
                 start = op["a"] % 1000
-                length = 1 + op["b"] % min(200, 1024 - start)
+                length = 1 + op["b"] % min(200, 1024 - start) if op["b"] % 3 else min(1024 - start, 200 + op["b"] % 600)
+                # the spa's block has moved on silently (no partial update was sent) at a few items inside the range, so that the refresh
+                # itself carries changes -- some of them in different 39-byte segments of the reply
+                inside = [a for a in s_accs if start <= a.pos and a.pos + 2 <= start + length]
+                for j in range(op["n"] + 1 if inside else 0):
+                    a = inside[(op["a"] >> (2 * j)) % len(inside)]
+                    pos = min(1022, max(start, a.pos - ((op["b"] >> j) & 1)))
+                    cur = model.structure.status_block[pos:pos + 2]
+                    model.structure.replace_status_block_segment(pos, bytes([cur[0] ^ 0x5A, cur[1] ^ 0xA5]))
+                    res.probe("refresh_carries_changes")
                 protocol = spa._protocol
                 if protocol is not None:
                     refreshes.append(asyncio.create_task(spa.struct.get(
@@ -217,7 +227,7 @@ ASSUMPTIONS = [
     "for temperature items 'changed' means the stored word changed; the passed values are only required to differ",
     "coverage of update geometries is measured (probe table), not asserted",
 ]
-PROBES = ["observer_blocked_in_callback", "unwatch_from_client_thread", "unwatch_all_from_client_thread", "registration_changed_during_an_update", "several_observers_on_one_item", "reentrant_unwatch_all", "reentrant_unwatch_self", "reentrant_unwatch_next", "update_aimed_at_item", "straddling_update_notified", "silent_although_bytes_changed", "duplicate_update", "a_b_a", "watched_twice", "unwatched", "unwatch_all"]
+PROBES = ["refresh_judged_as_one_update", "observer_blocked_in_callback", "unwatch_from_client_thread", "unwatch_all_from_client_thread", "registration_changed_during_an_update", "several_observers_on_one_item", "reentrant_unwatch_all", "reentrant_unwatch_self", "reentrant_unwatch_next", "update_aimed_at_item", "straddling_update_notified", "silent_although_bytes_changed", "duplicate_update", "a_b_a", "watched_twice", "unwatched", "unwatch_all"]
 N_QUICK = 1020
 
 
